@@ -31,6 +31,10 @@ NUMPY_CASES = [
     ('np.abs(a)', {'a': A}), ('np.sqrt(np.abs(b))', {'b': B}), ('np.arctan2(b, a)', {'a': B, 'b': B}), ('np.radians(b)', {'b': B}), ('np.mod(i, 4)', {'i': I}), ('np.maximum(a, b)', {'a': A, 'b': B}),
     ('np.isclose(b, b + 1e-9)', {'b': B}), ('np.ma.count(b)', {'b': B}), ('np.nansum(np.array([[np.nan, np.nan], [1.0, np.nan]]), axis=0)', {}),
     ('np.all(np.isnan(np.array([[np.nan, 1.0], [np.nan, np.nan]])), axis=0)', {}), ('np.sum(v == -np.inf)', {'v': V}),
+    # memory order of *_like / ravel for Fortran-ordered prototypes
+    ('np.shares_memory(np.zeros_like(np.asfortranarray(b)), np.zeros_like(np.asfortranarray(b)).ravel())', {'b': B}), ('np.shares_memory(np.zeros_like(b), np.zeros_like(b).ravel())', {'b': B}),
+    ('np.zeros_like(np.asfortranarray(b)).ravel(order="K").shape', {'b': B}), ('np.asfortranarray(b).ravel()', {'b': B}), ('np.asfortranarray(b).ravel(order="K")', {'b': B}),
+    ('np.shares_memory(np.asfortranarray(b), np.asfortranarray(b).T.ravel())', {'b': B}), ('np.empty_like(np.asfortranarray(b).T).ravel().shape', {'b': B}),
 ]
 
 
